@@ -225,9 +225,10 @@ def flatten_apex_calls(F, E, fn, depth=0):
     c = cfgmod.cfg_of(fn)
 
     def is_apex(n):
-        o = n.e.get('obj')
-        o = ir.strip(o) if ir.is_expr(o) else None
-        return o is not None and o['k'] == 'mem' and o['f'] == '_apex'
+        # a dispatch into the region: the resolved callee is a member of the composite (the machine has exactly one, its apex),
+        # whether it is reached through `_apex` directly or through a reference the function cached
+        g, _ = call_target(F, E, fn, n) if n.e.get('fn') is not None else (None, None)
+        return g is not None and g.tkey == 'ffsm2::detail::C_'
 
     def interesting(n):
         if n.kind != 'call':
